@@ -10,6 +10,13 @@ from vlib.ref.evaluate import BUILTINS, LOGICAL, NODES, VALUE
 from vlib.ref.abnf import _is_name_char, _is_name_first
 
 LIM = 2**53 - 1
+
+
+class _MissingType:
+    pass
+
+
+_MISSING = _MissingType()
 OPS = ["==", "!=", "<", "<=", ">", ">="]
 BLANKS = [" ", " ", " ", "\t", "\n", "\r", "  ", " \n", "\r\n", "\t "]
 
@@ -35,7 +42,7 @@ def number_value(text):
 class QGen:
     def __init__(self, r, names=None, registry=None, filters=True, max_filter_depth=2,
                  strings=None, functions=True, big_ints=False, nonascii_names=True,
-                 exclude=()):
+                 exclude=(), numbers=None):
         self.r = r
         self.names = names or ["a", "b", "c", "d", "e"]
         self.registry = BUILTINS if registry is None else registry
@@ -45,6 +52,10 @@ class QGen:
         self.functions = functions
         self.big_ints = big_ints
         self.exclude = set(exclude)
+        self.numbers = numbers or []
+        self.doc = None      # document for '$'-rooted guidance
+        self.ctx = None      # sample values of '@' at the current filter level
+        self.reached = None  # scalar reached by the last guided singular query
         self.by_ret = {VALUE: [], LOGICAL: [], NODES: []}
         for n, f in self.registry.items():
             self.by_ret[f["ret"]].append(n)
@@ -54,6 +65,69 @@ class QGen:
         r = self.r
         n = r.randrange(min_segs, max_segs + 1)
         return ["q", root, [self.segment(fdepth) for _ in range(n)]]
+
+    def guided_query(self, doc, min_segs=1, max_segs=4, hit_p=0.8, fdepth=0, root="$"):
+        """A query whose selectors mostly hit: the cursor walks down the document."""
+        r = self.r
+        if root == "$" and fdepth == 0:
+            self.doc = doc
+        cursor = doc
+        segs = []
+        for _ in range(r.randrange(min_segs, max_segs + 1)):
+            kind = "desc" if r.random() < 0.2 else "child"
+            if kind == "desc":
+                pool = [x for x in _containers(cursor)]
+                if pool:
+                    cursor = r.choice(pool)
+            k = 1 if r.random() < 0.65 else r.randrange(2, 4)
+            sels = []
+            for _ in range(k):
+                if r.random() < hit_p:
+                    sels.append(self.hitting_selector(cursor, fdepth))
+                else:
+                    sels.append(self.selector(fdepth))
+            segs.append([kind, sels])
+            nxt = _selected_children(cursor, sels)
+            if nxt:
+                cursor = r.choice(nxt)
+        return ["q", root, segs]
+
+    def filter_for(self, v, fdepth):
+        """A filter selector whose expression is guided by the children of v."""
+        kids = list(v.values()) if isinstance(v, dict) else list(v) if isinstance(v, list) else []
+        saved = self.ctx
+        self.ctx = kids or None
+        try:
+            if self.r.random() < 0.6:
+                return ["filter", self.basic(fdepth + 1, 1)]
+            return ["filter", self.logical(fdepth + 1, 2)]
+        finally:
+            self.ctx = saved
+
+    def hitting_selector(self, v, fdepth=0):
+        r = self.r
+        can_filter = self.filters and fdepth < self.max_filter_depth
+        if isinstance(v, dict) and v:
+            k = r.randrange(10)
+            if k < 5:
+                return ["name", r.choice(list(v.keys()))]
+            if k < 7 or not can_filter:
+                return ["wild"]
+            return self.filter_for(v, fdepth)
+        if isinstance(v, list) and v:
+            n = len(v)
+            k = r.randrange(10)
+            if k < 3:
+                return ["index", r.randrange(-n, n)]
+            if k < 5:
+                a = r.choice([None, r.randrange(-n - 1, n + 1)])
+                b = r.choice([None, r.randrange(-n - 1, n + 2)])
+                c = r.choice([None, 1, 1, 2, -1, -1, -2])
+                return ["slice", a, b, c]
+            if k < 7 or not can_filter:
+                return ["wild"]
+            return self.filter_for(v, fdepth)
+        return self.selector(fdepth)
 
     def segment(self, fdepth=0):
         r = self.r
@@ -81,31 +155,65 @@ class QGen:
             return ["slice", a, b, c]
         if k < 9:
             return ["wild"]
-        return ["filter", self.logical(fdepth + 1, 3)]
+        return ["filter", self.logical(fdepth + 1, 2)]
 
     def singular(self, root=None, max_segs=3):
         r = self.r
         root = root or ("@" if r.random() < 0.8 else "$")
         segs = []
-        for _ in range(r.randrange(0, max_segs + 1)):
-            if r.random() < 0.7:
-                segs.append(["child", [["name", r.choice(self.names)]]])
+        cursor = _MISSING
+        if root == "@" and self.ctx:
+            cursor = r.choice(self.ctx)
+        elif root == "$" and self.doc is not None:
+            cursor = self.doc
+        n = r.choice([0, 1, 1, 1, 2, 2, 3][: 4 + max_segs])
+        for _ in range(n):
+            if isinstance(cursor, dict) and cursor and r.random() < 0.85:
+                k = r.choice(list(cursor.keys()))
+                segs.append(["child", [["name", k]]])
+                cursor = cursor[k]
+            elif isinstance(cursor, list) and cursor and r.random() < 0.85:
+                i = r.randrange(-len(cursor), len(cursor))
+                segs.append(["child", [["index", i]]])
+                cursor = cursor[i]
             else:
-                segs.append(["child", [["index", self.int_()]]])
+                cursor = _MISSING
+                if r.random() < 0.7:
+                    segs.append(["child", [["name", r.choice(self.names)]]])
+                else:
+                    segs.append(["child", [["index", self.int_()]]])
+        self.reached = cursor
         return ["q", root, segs]
 
     def filter_query(self, fdepth):
         r = self.r
-        if r.random() < 0.35:
+        if r.random() < 0.5:
             return self.singular()
         root = "@" if r.random() < 0.75 else "$"
-        return self.query(root, 0, 3, fdepth)
+        base = None
+        if root == "@" and self.ctx:
+            base = r.choice(self.ctx)
+        elif root == "$":
+            base = self.doc
+        if base is not None and isinstance(base, (dict, list)) and r.random() < 0.8:
+            saved = self.ctx
+            q = self.guided_query(base, 1, 2, hit_p=0.8, fdepth=fdepth, root=root)
+            self.ctx = saved
+            return q
+        return self.query(root, 0, 2, fdepth)
 
     def string(self):
         return self.r.choice(self.strings)
 
     def number_text(self):
         r = self.r
+        if self.numbers and r.random() < 0.5:
+            v = r.choice(self.numbers)
+            t = repr(v)
+            if "inf" not in t and "nan" not in t:
+                if r.random() < 0.3 and isinstance(v, int) and abs(v) < 10**6:
+                    t = r.choice([t + ".0", t + "e0", t + "E+0", t + ".00e-0"])
+                return t
         k = r.randrange(10)
         if k < 5:
             return str(r.choice([0, 1, 2, 3, 10, -1, -2, 5, 42, 100, r.randrange(-50, 50)]))
@@ -119,8 +227,14 @@ class QGen:
             exp = r.choice(["e", "E"]) + r.choice(["", "+", "-"]) + r.choice(["0", "1", "2", "00", "01", "02", "3", "10"])
         return neg + ip + frac + exp
 
-    def literal(self):
+    def literal(self, near=None):
         r = self.r
+        if near is not None and near is not _MISSING and not isinstance(near, (dict, list)) and r.random() < 0.5:
+            if isinstance(near, bool) or near is None or isinstance(near, str):
+                return ["lit", near]
+            t = repr(near)
+            if "inf" not in t and "nan" not in t:
+                return ["lit", number_value(t), t]
         k = r.randrange(10)
         if k < 4:
             t = self.number_text()
@@ -181,7 +295,18 @@ class QGen:
             inner = ["paren", self.logical(fdepth, budget - 1)]
             return ["not", inner] if r.random() < 0.5 else inner
         if k < 9:
-            return ["cmp", r.choice(OPS), self.value_expr(fdepth, budget - 1), self.value_expr(fdepth, budget - 1)]
+            self.reached = None
+            left = self.singular() if r.random() < 0.7 else self.value_expr(fdepth, budget - 1)
+            reached = self.reached
+            op = r.choice(OPS)
+            if reached is not None and reached is not _MISSING and r.random() < 0.65:
+                right = self.literal(near=reached)
+                op = r.choice(["==", "==", "!=", "<=", ">=", "<", ">"])
+            else:
+                right = self.value_expr(fdepth, budget - 1)
+            if r.random() < 0.3:
+                left, right = right, left
+            return ["cmp", op, left, right]
         if k == 9:
             return ["paren", self.logical(fdepth, budget - 1)]
         cands = self.by_ret[LOGICAL] + self.by_ret[NODES]
@@ -204,6 +329,56 @@ class QGen:
             return self.and_(fdepth, budget)
         n = r.randrange(2, 4)
         return ["or", [self.and_(fdepth, budget - 1) for _ in range(n)]]
+
+
+class _Missing:
+    def __repr__(self):
+        return "<missing>"
+
+
+def _containers(v):
+    out = []
+    stack = [v]
+    while stack:
+        x = stack.pop()
+        if isinstance(x, (dict, list)):
+            out.append(x)
+            stack.extend(x.values() if isinstance(x, dict) else x)
+    return out
+
+
+def _selected_children(v, sels):
+    out = []
+    for s in sels:
+        t = s[0]
+        if t == "name" and isinstance(v, dict) and s[1] in v:
+            out.append(v[s[1]])
+        elif t == "index" and isinstance(v, list) and -len(v) <= s[1] < len(v):
+            out.append(v[s[1]])
+        elif t in ("wild", "filter", "slice"):
+            if isinstance(v, dict):
+                out.extend(v.values())
+            elif isinstance(v, list):
+                out.extend(v)
+    return out
+
+
+def pools(doc):
+    """Member names, strings and numbers occurring in a document."""
+    names, strings, numbers = [], [], []
+    stack = [doc]
+    while stack:
+        x = stack.pop()
+        if isinstance(x, dict):
+            names.extend(x.keys())
+            stack.extend(x.values())
+        elif isinstance(x, list):
+            stack.extend(x)
+        elif isinstance(x, str):
+            strings.append(x)
+        elif isinstance(x, (int, float)) and not isinstance(x, bool):
+            numbers.append(x)
+    return names, strings, numbers
 
 
 # ------------------------------------------------------------------ renderer
